@@ -140,11 +140,10 @@ contract("BaseWorkflow.__check_finished", props=["C01", "C02", "C03", "C06"],
          types={"time": "Int"},
          requires=["wf_tasks(self)", "holds_exclusively(self)"],
          ensures=FIN_TASK_CLAUSES + FIN_RES_CLAUSES + [
+             ("lists-never-grow", "forall(self.task_list, lambda t: len(t.allocated_worker_list) <= old(len(t.allocated_worker_list))"
+                                  " and len(t.allocated_facility_list) <= old(len(t.allocated_facility_list)))"),
              # C03(a,b) is preserved: what is still held is held exclusively and two-way
-             ("consistency-preserved-workers", "forall(self.task_list, lambda t: forall(t.allocated_worker_list, lambda w: w is not None and len(w.assigned_task_list) == 1 and w.assigned_task_list[0] is t))"),
-             ("consistency-preserved-facilities", "forall(self.task_list, lambda t: forall(t.allocated_facility_list, lambda f: f is not None and len(f.assigned_task_list) == 1 and f.assigned_task_list[0] is t))"),
-             ("consistency-preserved-workers-conv", "forall_obj('BaseWorker', lambda w: forall(w.assigned_task_list, lambda t: t is not None and exists(t.allocated_worker_list, lambda w2: w2 is w)))"),
-             ("consistency-preserved-facilities-conv", "forall_obj('BaseFacility', lambda f: forall(f.assigned_task_list, lambda t: t is not None and exists(t.allocated_facility_list, lambda f2: f2 is f)))"),
+             ("consistency-preserved", "holds_exclusively(self)"),
              # C06(d): zero remaining work and a finish gate that was already open -> FINISHED in this phase
              ("no-waiting-in-working", "forall(self.task_list, lambda t: implies(old(t.state) == BaseTaskState.WORKING"
                                        " and old(t.remaining_work_amount) < %s and old(finish_gate(t)), t.state == BaseTaskState.FINISHED))" % TOL),
@@ -154,6 +153,8 @@ contract("BaseWorkflow.__check_finished", props=["C01", "C02", "C03", "C06"],
                    "BaseWorker.state", "BaseWorker.assigned_task_list", "BaseFacility.state", "BaseFacility.assigned_task_list"],
          loops={
              0: FIN_TASK_CLAUSES + FIN_RES_CLAUSES + [
+                 ("lists-never-grow", "forall(self.task_list, lambda t: len(t.allocated_worker_list) <= old(len(t.allocated_worker_list))"
+                                      " and len(t.allocated_facility_list) <= old(len(t.allocated_facility_list)))"),
                  ("changed-are-visited", "forall_obj('BaseTask', lambda t: implies(task_changed(t), t in _visited))"),
                  ("visited-complete", "forall_obj('BaseTask', lambda t: implies(t in _visited and old(finish_gate(t)), t.state == BaseTaskState.FINISHED))"),
                  ("frame", "unchanged_except('BaseTask.state', self.task_list) and unchanged_except('BaseTask.remaining_work_amount', self.task_list)"
